@@ -1,1 +1,3 @@
-fn main() { vcore::main_entry(false) }
+fn main() {
+    vcore::main_entry(false)
+}
